@@ -117,6 +117,16 @@ package transport
 //@   trusted
 //@   pure
 //
+// (*connection).ReConnect stays trusted for its callers (connection state is not modelled); checked here (argsonly,
+// C09: a call never blocks beyond its bounds while connecting) is that both ways of dialling - plain and TLS -
+// are given the configured dial timeout, and that there is no third one.
+//@ func (*connection).ReConnect
+//@   trusted
+//@   argsonly
+//@   site DialWithDialer#0 assert [C09] $0 != nil && $0.Timeout == c.dialTimeout
+//@   site DialTimeout#0 assert [C09] $2 == c.dialTimeout
+//@   sites Dial = 2
+//
 // ------------------------------------------------------------------ what reaches the protocol's Invoke (property C05)
 // The Tars implementation of ServerProtocol slices off the 4-byte length prefix (req[4:], under contract in
 // package tars with the precondition len(req) >= 4), and a panic there ends the process (CheckPanic dumps the
